@@ -124,11 +124,17 @@ func (c *Ctx) AdoptPassesKnown(alt *Ctx, known *KnownFile) int {
 		}
 	}
 	n := 0
+	early := map[string]bool{} // rules with an undecided obligation here that the other run discharges
+	have := map[string]bool{}
+	for _, o := range c.Obs {
+		have[o.FullKey()] = true
+	}
 	for _, o := range c.Obs {
 		if o.st == Pass {
 			continue
 		}
 		o2, ok := byKey[o.FullKey()]
+		wasUndecided := o.st == Undecided
 		switch {
 		case ok && o2.st == Pass:
 			o.Detail = "discharged on the equivalent program obtained by expanding the new helper functions in place: " + o2.Detail + " [on the unexpanded program: " + o.Detail + "]"
@@ -144,6 +150,58 @@ func (c *Ctx) AdoptPassesKnown(alt *Ctx, known *KnownFile) int {
 		o.Status = Pass.String()
 		o.Witness = nil
 		n++
+		if wasUndecided {
+			early[o.Rule] = true
+			if o.Rule == "instances" {
+				early[o.Key] = true
+			}
+		}
+	}
+	// A rule that stopped early here (one undecided obligation, which the other
+	// run discharges) has produced none of its other obligations: what the other
+	// run found for that rule under keys unknown here comes with the discharge —
+	// its violations and its undecided obligations as well as its passes.
+	for _, o2 := range alt.Obs {
+		if !early[o2.Rule] || have[o2.FullKey()] || o2.st == Pass {
+			continue
+		}
+		if o2.st == Fail && isKnown[o2.FullKey()] {
+			continue
+		}
+		cp := *o2
+		cp.Detail = o2.Detail + " [found on the equivalent program obtained by expanding the new helper functions in place; the rule stopped early on the tree as written]"
+		c.Obs = append(c.Obs, &cp)
+		have[cp.FullKey()] = true
+	}
+	return n
+}
+
+// AdoptViolations: an obligation that could not be decided on the tree as
+// written and that fails, under the same key, on an equivalent normalised
+// program is a violation (located on that program; the witness says so). It is
+// called after every view had the chance to discharge the obligation.
+func (c *Ctx) AdoptViolations(alt *Ctx) int {
+	byKey := map[string]*Obligation{}
+	for _, o := range alt.Obs {
+		if o.st == Fail {
+			byKey[o.FullKey()] = o
+		}
+	}
+	n := 0
+	for _, o := range c.Obs {
+		if o.st != Undecided || o.Rule == "instances" || o.Rule == "anchor" || o.Rule == "panic" || o.Rule == "load" {
+			continue
+		}
+		if o2, ok := byKey[o.FullKey()]; ok {
+			o.st = Fail
+			o.Status = Fail.String()
+			o.Detail = o2.Detail + " [decided on the equivalent program obtained by expanding the new helper functions in place; on the tree as written: " + o.Detail + "]"
+			o.Witness = o2.Witness
+			if o2.Pos != "" {
+				o.Pos = o2.Pos
+			}
+			n++
+		}
 	}
 	return n
 }
